@@ -327,6 +327,14 @@ func (fr *Frame) modCall(call *ast.CallExpr, ms *modSet, info *types.Info, visit
 		return // body is walked by Inspect
 	}
 	if callee == nil {
+		if sel, ok := fun.(*ast.SelectorExpr); ok {
+			if hs, ok := fr.fieldFuncHeaps(sel, info); ok {
+				for hn, hsort := range hs {
+					ms.touch(hn, hsort)
+				}
+				return
+			}
+		}
 		ms.all = true
 		return
 	}
@@ -1053,4 +1061,44 @@ func (fr *Frame) unrollRange(s *State, x *ast.RangeStmt, label string, coll *Val
 		outs = append(outs, cur.fork(fmt.Sprintf("(>= %d %s)", unrollBound, n)))
 	}
 	return mergeAll(outs)
+}
+
+// fieldFuncHeaps: the heaps a call through a func-typed struct field may modify, when the field is declared with
+// a fieldfunc directive (hashconcat: none; assigns: the named heaps).
+func (fr *Frame) fieldFuncHeaps(f *ast.SelectorExpr, info *types.Info) (map[string]string, bool) {
+	sel, ok := info.Selections[f]
+	if !ok || sel.Kind() != types.FieldVal || fr.eng.fieldFuncs == nil {
+		return nil, false
+	}
+	rt := sel.Recv()
+	if p, ok := rt.Underlying().(*types.Pointer); ok {
+		rt = p.Elem()
+	}
+	named, ok := rt.(*types.Named)
+	if !ok || named.Obj().Pkg() == nil {
+		return nil, false
+	}
+	key := named.Obj().Pkg().Path() + "." + named.Obj().Name() + "." + sel.Obj().Name()
+	mode, ok := fr.eng.fieldFuncs[key]
+	if !ok {
+		return nil, false
+	}
+	out := map[string]string{}
+	if strings.HasPrefix(mode, "assigns") {
+		dummy := &Contract{Pkg: named.Obj().Pkg().Path()}
+		for _, d := range splitTop(strings.TrimPrefix(mode, "assigns"), ",") {
+			d = strings.TrimSpace(d)
+			if d == "" || d == "nothing" {
+				continue
+			}
+			hs, err := fr.eng.designatorHeaps(dummy, nil, d)
+			if err != nil {
+				return nil, false
+			}
+			for k, v := range hs {
+				out[k] = v
+			}
+		}
+	}
+	return out, true
 }
